@@ -135,9 +135,9 @@ PROPS = {
     },
     "C17": {
         "streams": ["versions", "bundle"],
-        "theorems": "C17_selected_is_newest_allowed, C17_listing_order_irrelevant(_some), C17_exact, C17_complete_above_zero, C17_precedence_order (strict weak order), C17_complete_refuted (0.0.0 witness = known finding KF-C17-1): for all version lists and allowed sets; at the level of the builder, for all worlds and histories: C17_builder_selects_like_the_world + C17_world_selection_is_newest_allowed (a registry lookup answers the registry's source address for the version select_version picks among the listed ones, whatever was cached before; none allowed = no answer = error diagnostic), C17_deprecation_is_the_registrys (every note in the bundle's deprecation table is the one the registry's listing attaches to exactly that version, build metadata included; Bundle/BuilderTrace.v)",
+        "theorems": "C17_selected_is_newest_allowed, C17_listing_order_irrelevant(_some), C17_exact, C17_complete + C17_error_only_if_none_allowed (a version is selected iff some offered version is allowed - 0.0.0 and its pre-releases included since the repair of KF-C17-1), C17_precedence_order (strict weak order), C17_zero_is_selected: for all version lists and allowed sets; at the level of the builder, for all worlds and histories: C17_builder_selects_like_the_world + C17_world_selection_is_newest_allowed (a registry lookup answers the registry's source address for the version select_version picks among the listed ones, whatever was cached before; none allowed = no answer = error diagnostic), C17_deprecation_is_the_registrys (every note in the bundle's deprecation table is the one the registry's listing attaches to exactly that version, build metadata included; Bundle/BuilderTrace.v)",
         "assumptions": [
-            "modelled, not verified: github.com/apparentlymart/go-versions LessThan/GreaterThan/Same/Sort/NewestInSet (restated in Bundle/Versions.v, validated by the versions stream); versions.Set.Has enters as a truth table computed by the harness",
+            "modelled, not verified: github.com/apparentlymart/go-versions LessThan/GreaterThan/Same/Sort/NewestInSet (restated in Bundle/Versions.v, validated by the versions stream; the builder's own newestAllowedVersion is Versions.newest_allowed, validated through the bundle stream); versions.Set.Has enters as a truth table computed by the harness",
             "the builder-level selection, caching and deprecation capture are in Bundle/Builder.v (find_registry_source), compared with the real builder on scripted worlds (exact call and trace sequences, final registry tables)",
         ],
     },
